@@ -244,9 +244,7 @@ Definition ra_result (st : state) (src eth p : bytes) (d : ra_info) : Prop :=
   snd (rx_ra st src eth p true) = ORA (Ok tt) /\
   exists r, rt_find (routers st') src = Some r /\
     hdr_exact r d /\ opts_exact r d /\
-    (known_ri_multiple d = false -> routes_exact r d) /\
-    (known_rdnss_multiple d = false -> rdnss_exact r d) /\
-    (known_dnssl_multiple d = false -> dnssl_exact r d) /\
+    routes_exact r d /\ rdnss_exact r d /\ dnssl_exact r d /\ legacy_exact r d /\
     (rt_find (routers st) src = None ->
        defrouter st' = Some src /\ r_ip r = src /\ r_mac r = learned_mac d eth) /\
     (forall r0, rt_find (routers st) src = Some r0 ->
@@ -255,12 +253,9 @@ Definition ra_result (st : state) (src eth p : bytes) (d : ra_info) : Prop :=
 Lemma update_exact r0 p d :
   bytes_ok p -> ra_decode p = Some d ->
   let r := router_update r0 p (fold_left apply1 (ra_opts d) opts_zero) in
-  hdr_exact r d /\ opts_exact r d /\
-  (known_ri_multiple d = false -> routes_exact r d) /\
-  (known_rdnss_multiple d = false -> rdnss_exact r d) /\
-  (known_dnssl_multiple d = false -> dnssl_exact r d).
+  hdr_exact r d /\ opts_exact r d /\ routes_exact r d /\ rdnss_exact r d /\ dnssl_exact r d /\ legacy_exact r d.
 Proof.
-  intros Hok Hd. pose proof (ra_decode_shape _ _ Hd) as Hshape.
+  intros Hok Hd.
   unfold ra_decode in Hd.
   destruct p as [|a0 [|a1 [|a2 [|a3 [|a4 [|a5 [|a6 [|a7 [|a8 [|a9 [|a10 [|a11 [|a12 [|a13 [|a14 [|a15 optb]]]]]]]]]]]]]]]];
     try discriminate.
@@ -268,19 +263,18 @@ Proof.
   destruct (decode_all tl) as [os|]; [|discriminate]. inversion Hd; subst d. clear Hd.
   do 16 (apply bytes_ok_cons' in Hok; destruct Hok as [? Hok]).
   cbv zeta. cbn [ra_opts] in *.
-  split; [|split; [|split; [|split]]].
+  split; [|split; [|split; [|split; [|split]]]].
   - unfold hdr_exact, router_update. cbn [r_managed r_other r_prf r_hop r_life r_reach r_retrans
       ra_managed ra_other ra_prf ra_hop ra_life ra_reach ra_retrans].
     unfold be32_at, be16_at, at_. cbn [nth Nat.add].
     rewrite bit7, bit6, prf_bits, !be32_w32 by assumption. unfold be16. repeat split; reflexivity.
   - unfold opts_exact, router_update. cbn [r_opts r_mtu r_prefixes ra_opts].
     rewrite fold_slla, fold_mtu, fold_prefixes. cbn [opts_zero o_slla o_mtu o_prefixes app]. repeat split; reflexivity.
-  - intros Hk. unfold routes_exact, router_update. cbn [r_opts ra_opts].
-    apply fold_routes_exact. unfold known_ri_multiple in Hk. cbn [ra_opts] in Hk. apply Nat.leb_gt in Hk. exact Hk.
-  - intros Hk. unfold rdnss_exact, router_update. cbn [r_opts ra_opts].
-    apply fold_rdnss_exact; [exact Hshape|]. unfold known_rdnss_multiple in Hk. cbn [ra_opts] in Hk. apply Nat.leb_gt in Hk. exact Hk.
-  - intros Hk. unfold dnssl_exact, router_update. cbn [r_opts ra_opts].
-    apply fold_dnssl_exact; [exact Hshape|]. unfold known_dnssl_multiple in Hk. cbn [ra_opts] in Hk. apply Nat.leb_gt in Hk. exact Hk.
+  - unfold routes_exact, router_update. cbn [r_opts ra_opts]. rewrite fold_routes. reflexivity.
+  - unfold rdnss_exact, router_update. cbn [r_opts ra_opts]. rewrite fold_rdnss_all. reflexivity.
+  - unfold dnssl_exact, router_update. cbn [r_opts ra_opts]. rewrite fold_dnssl_all. reflexivity.
+  - unfold legacy_exact, router_update. cbn [r_opts ra_opts]. rewrite fold_ri, fold_dnssl, fold_rdnss.
+    cbn [opts_zero o_ri o_dnssl o_rdnss rd_life rd_servers app]. repeat split; reflexivity.
 Qed.
 
 Lemma ra_decode_len p d : ra_decode p = Some d -> (blen p <? 16) = false.
@@ -300,16 +294,16 @@ Proof.
   rewrite (ra_options_exact _ _ Hok Hd).
   set (o := fold_left apply1 (ra_opts d) opts_zero).
   assert (Hslla : o_slla o = last (sllas (ra_opts d)) []) by (unfold o; rewrite fold_slla; reflexivity).
-  destruct (update_exact (router_new (if (List.length (o_slla o) =? 6)%nat then o_slla o else eth) src) p d Hok Hd) as [H1 [H2 [H3 [H4 H5]]]].
+  destruct (update_exact (router_new (if (List.length (o_slla o) =? 6)%nat then o_slla o else eth) src) p d Hok Hd) as [H1 [H2 [H3 [H4 [H5 H6]]]]].
   destruct (rt_find (routers st) src) as [r0|] eqn:Ef; cbn [fst snd].
   - split; [reflexivity|]. exists (router_update r0 p o). cbn [routers defrouter]. rewrite rt_find_set.
-    destruct (update_exact r0 p d Hok Hd) as [G1 [G2 [G3 [G4 G5]]]].
+    destruct (update_exact r0 p d Hok Hd) as [G1 [G2 [G3 [G4 [G5 G6]]]]].
     split; [reflexivity|]. split; [exact G1|]. split; [exact G2|]. split; [exact G3|]. split; [exact G4|].
-    split; [exact G5|]. split; [discriminate|].
+    split; [exact G5|]. split; [exact G6|]. split; [discriminate|].
     intros r1 Hr1. inversion Hr1; subst. repeat split; reflexivity.
   - split; [reflexivity|]. eexists. cbn [routers defrouter]. rewrite rt_find_set.
     split; [reflexivity|]. split; [exact H1|]. split; [exact H2|]. split; [exact H3|]. split; [exact H4|].
-    split; [exact H5|]. split; [|discriminate].
+    split; [exact H5|]. split; [exact H6|]. split; [|discriminate].
     intros _. split; [reflexivity|]. split; [reflexivity|].
     unfold learned_mac. rewrite <- Hslla. reflexivity.
 Qed.
@@ -324,7 +318,8 @@ Proof.
   destruct H as [H | ->]; [congruence|]. cbn [negb]. auto.
 Qed.
 
-(* refutations of the list-valued parts: witnesses are the directed advertisements of the harness *)
+(* witnesses: the advertisements with two route / RDNSS / DNSSL options that used to be recorded only
+   in part (findings ri-multiple, rdnss-multiple, dnssl-multiple, repaired) *)
 Definition hexb (s : string) : bytes := match bytes_of_hex s with Some b => b | None => [] end.
 Definition wit_ri : bytes := hexb "86000000400007080000000000000000180230080000025820010db80001000018023818000002bc20010db800020300".
 Definition wit_rdnss : bytes := hexb "8600000040000708000000000000000019030000000002582001486048600000000000000000888819030000000004b020014860486000000000000000008844".
@@ -333,37 +328,18 @@ Definition wit_dnssl : bytes := hexb "860000004000070800000000000000001f03000000
 Definition learn1 (p : bytes) : option router :=
   rt_find (routers (fst (rx_ra (init 3) ex_src [0;102;102;102;102;102] p true))) ex_src.
 
-Lemma routes_refuted : exists p d r, bytes_ok p /\ ra_decode p = Some d /\ processed_ra (init 3) /\
-  learn1 p = Some r /\ known_ri_multiple d = true /\ ~ routes_exact r d.
+Example multi_recorded :
+  (exists r, learn1 wit_ri = Some r /\ List.length (o_routes (r_opts r)) = 2%nat) /\
+  (exists r, learn1 wit_rdnss = Some r /\ List.length (o_rdnss_all (r_opts r)) = 2%nat) /\
+  (exists r, learn1 wit_dnssl = Some r /\ List.length (o_dnssl_all (r_opts r)) = 2%nat).
 Proof.
-  exists wit_ri. destruct (ra_decode wit_ri) as [d|] eqn:E; [|vm_compute in E; discriminate].
-  destruct (learn1 wit_ri) as [r|] eqn:El; [|vm_compute in El; discriminate].
-  exists d, r. split; [apply bytes_okb_spec; vm_compute; reflexivity|]. split; [reflexivity|].
-  split; [reflexivity|]. split; [reflexivity|].
-  vm_compute in E. inversion E; subst d. vm_compute in El. inversion El; subst r.
-  split; [vm_compute; reflexivity|]. unfold routes_exact. vm_compute. discriminate.
-Qed.
-
-Lemma rdnss_refuted : exists p d r, bytes_ok p /\ ra_decode p = Some d /\ processed_ra (init 3) /\
-  learn1 p = Some r /\ known_rdnss_multiple d = true /\ ~ rdnss_exact r d.
-Proof.
-  exists wit_rdnss. destruct (ra_decode wit_rdnss) as [d|] eqn:E; [|vm_compute in E; discriminate].
-  destruct (learn1 wit_rdnss) as [r|] eqn:El; [|vm_compute in El; discriminate].
-  exists d, r. split; [apply bytes_okb_spec; vm_compute; reflexivity|]. split; [reflexivity|].
-  split; [reflexivity|]. split; [reflexivity|].
-  vm_compute in E. inversion E; subst d. vm_compute in El. inversion El; subst r.
-  split; [vm_compute; reflexivity|]. unfold rdnss_exact. vm_compute. discriminate.
-Qed.
-
-Lemma dnssl_refuted : exists p d r, bytes_ok p /\ ra_decode p = Some d /\ processed_ra (init 3) /\
-  learn1 p = Some r /\ known_dnssl_multiple d = true /\ ~ dnssl_exact r d.
-Proof.
-  exists wit_dnssl. destruct (ra_decode wit_dnssl) as [d|] eqn:E; [|vm_compute in E; discriminate].
-  destruct (learn1 wit_dnssl) as [r|] eqn:El; [|vm_compute in El; discriminate].
-  exists d, r. split; [apply bytes_okb_spec; vm_compute; reflexivity|]. split; [reflexivity|].
-  split; [reflexivity|]. split; [reflexivity|].
-  vm_compute in E. inversion E; subst d. vm_compute in El. inversion El; subst r.
-  split; [vm_compute; reflexivity|]. unfold dnssl_exact. vm_compute. discriminate.
+  repeat split.
+  - destruct (learn1 wit_ri) as [r|] eqn:E; [|vm_compute in E; discriminate]. exists r. split; [reflexivity|].
+    vm_compute in E. inversion E; subst r. reflexivity.
+  - destruct (learn1 wit_rdnss) as [r|] eqn:E; [|vm_compute in E; discriminate]. exists r. split; [reflexivity|].
+    vm_compute in E. inversion E; subst r. reflexivity.
+  - destruct (learn1 wit_dnssl) as [r|] eqn:E; [|vm_compute in E; discriminate]. exists r. split; [reflexivity|].
+    vm_compute in E. inversion E; subst r. reflexivity.
 Qed.
 
 (* non-vacuity of router_exact: an advertisement with one option of every kind is in its domain
@@ -373,12 +349,11 @@ Definition wit_all : bytes := hexb
 
 Example router_exact_nonvacuous : exists d,
   bytes_ok wit_all /\ ra_decode wit_all = Some d /\ processed_ra (init 3) /\
-  List.length (ra_opts d) = 7%nat /\
-  known_ri_multiple d = false /\ known_rdnss_multiple d = false /\ known_dnssl_multiple d = false.
+  List.length (ra_opts d) = 7%nat.
 Proof.
   destruct (ra_decode wit_all) as [d|] eqn:E; [|vm_compute in E; discriminate].
   exists d. split; [apply bytes_okb_spec; vm_compute; reflexivity|]. split; [reflexivity|].
-  split; [reflexivity|]. vm_compute in E. inversion E; subst d. repeat split; reflexivity.
+  split; [reflexivity|]. vm_compute in E. inversion E; subst d. reflexivity.
 Qed.
 
 (* ---------------------------------------------------------------- *)
@@ -727,10 +702,7 @@ Qed.
 
 (* what "learned exactly" means for one entry, as one predicate *)
 Definition entry_exact (r : router) (d : ra_info) : Prop :=
-  hdr_exact r d /\ opts_exact r d /\
-  (known_ri_multiple d = false -> routes_exact r d) /\
-  (known_rdnss_multiple d = false -> rdnss_exact r d) /\
-  (known_dnssl_multiple d = false -> dnssl_exact r d).
+  hdr_exact r d /\ opts_exact r d /\ routes_exact r d /\ rdnss_exact r d /\ dnssl_exact r d /\ legacy_exact r d.
 
 (* after ANY history evs1, a processed RA p from src, then ANY later history evs2 without another RA
    from src (StartHunt/StopHunt/Close, loop passes, RAs of other routers, any other ICMPv6 message):
@@ -743,8 +715,8 @@ Theorem router_persistent c rep evs1 src eth p d evs2 :
   exists r, rt_find (routers fin) src = Some r /\ entry_exact r d.
 Proof.
   intros Hok Hd st Hp H2 fin.
-  destruct (router_exact st src eth p d Hok Hd Hp) as [_ [r [Hf [H1 [H3 [H4 [H5 [H6 _]]]]]]]].
-  exists r. split; [|split; [exact H1|split; [exact H3|split; [exact H4|split; [exact H5|exact H6]]]]].
+  destruct (router_exact st src eth p d Hok Hd Hp) as [_ [r [Hf [H1 [H3 [H4 [H5 [H6 [H7 _]]]]]]]]].
+  exists r. split; [|split; [exact H1|split; [exact H3|split; [exact H4|split; [exact H5|split; [exact H6|exact H7]]]]]].
   unfold fin. rewrite run_keeps_router by exact H2. exact Hf.
 Qed.
 
